@@ -72,6 +72,7 @@ type Sim struct {
 	budget      int
 	unlockEpoch uint64
 	stopped     bool
+	idleWake    chan struct{} // non-nil while the scheduler waits in advanceUntilEvent
 
 	hash   uint64
 	nlog   int
@@ -264,6 +265,13 @@ func park(label string, mutex bool) {
 	}
 	t := &task{gid: g, label: label, wake: make(chan struct{}), mutex: mutex, epoch: s.unlockEpoch, group: grp, key: key}
 	s.parked = append(s.parked, t)
+	if s.idleWake != nil {
+		// the scheduler is waiting for the fake clock to bring somebody to a scheduling point
+		select {
+		case s.idleWake <- struct{}{}:
+		default:
+		}
+	}
 	s.mu.Unlock()
 	<-t.wake
 }
@@ -712,31 +720,41 @@ func (s *Sim) Step() StepResult {
 	return Released
 }
 
-// advanceUntilEvent moves the fake clock forward, doubling, until some
-// goroutine parks at a yield (a timer fired and its goroutine reached a
-// scheduling point) or limit is exhausted. Reports whether anything parked.
+// advanceUntilEvent lets the fake clock run until some goroutine that can be
+// released parks at a yield (a timer fired and its goroutine reached a scheduling
+// point) or limit has passed. The scheduler blocks on a channel the parking task
+// signals, so the clock stops exactly at the instant of that timer: nobody is
+// stalled beyond it. Reports whether anything parked.
 func (s *Sim) advanceUntilEvent(limit time.Duration) bool {
-	d := time.Microsecond
-	var total time.Duration
-	for total < limit {
-		time.Sleep(d)
-		total += d
-		synctest.Wait()
+	start := time.Now()
+	ch := make(chan struct{}, 1)
+	s.mu.Lock()
+	s.idleWake = ch
+	s.mu.Unlock()
+	defer func() {
+		s.mu.Lock()
+		s.idleWake = nil
+		s.mu.Unlock()
+	}()
+	timer := time.NewTimer(limit)
+	defer timer.Stop()
+	for {
+		select {
+		case <-ch:
+		case <-timer.C:
+			return false
+		}
+		synctest.Wait() // everybody woken at this instant has reached its scheduling point
 		s.mu.Lock()
 		n := len(s.enabledLocked()) // frozen (killed) tasks do not count
-		s.mu.Unlock()
 		if n > 0 {
-			s.mu.Lock()
-			s.logLocked("idle-advance " + total.String())
+			s.logLocked("idle-advance " + time.Since(start).String())
 			s.ClockJumps++
 			s.mu.Unlock()
 			return true
 		}
-		if d < 30*time.Second {
-			d *= 2
-		}
+		s.mu.Unlock()
 	}
-	return false
 }
 
 // Run drives the schedule until done() reports true (checked at every
